@@ -148,6 +148,17 @@ def parseDocs (mode : String) (docs : List Bytes) : Option (List (List Ev × Str
       | (_, some _) => none
   go (Parse.init none) docs []
 
+/-- one parser, `Parse` per document, refused documents included (the call after a refusal starts
+from the idle state like every call): `verdict:events` per document -/
+def parseDocsF (docs : List Bytes) : List String :=
+  let rec go (p : Parse.P) (ds : List Bytes) (acc : List String) : List String :=
+    match ds with
+    | [] => acc.reverse
+    | d :: rest =>
+      let (p', e) := Parse.parse { p with evs := [] } d
+      go p' rest (s!"{errClass e}:{evsToString (Parse.events p')}" :: acc)
+  go (Parse.init none) docs []
+
 def parseEvents (chunks : List Bytes) : List Ev × String :=
   let (p, e) := Parse.writeChunks (Parse.init none) chunks
   (Parse.events p, errClass e)
